@@ -305,6 +305,21 @@ func runC25(p *core.Prog, r *core.Report) {
 		core.G("delegated", core.ErrNil, "(*"+putP+"distributedTarget).saveECPart", "(*"+putP+"distributedTarget).distributeObject"),
 		{Name: "ec-part-zero-limit", Match: func(s core.Site) bool { return strings.HasSuffix(s.Name, "ecNodesForPart") }, Comps: []core.Comp{{Result: -1, Kind: core.Executed}}},
 	}, Derived: []core.Derived{{Name: "completed", Alts: [][]string{{"meta-submitted"}, {"delegated"}, {"ec-part-zero-limit"}}}}, Need: []string{"completed"}})
+	// ---------------- R8 a local copy counts only if the local storage took it
+	r8 := r.Rule("C25.R8", "the local leaf of every send: putObjectLocally reports success only after ObjectStorage.Put returned nil, and the receiving side of replication (ValidateAndStoreObjectLocally) only through it", 2)
+	if pl := p.Func(putP + "putObjectLocally"); pl == nil {
+		r.Fatalf("C25.R8: putObjectLocally not found")
+	} else {
+		core.CheckSuccessFn(p, r8, pl, core.SuccessRule{ResultIdx: -1, MinReturns: 1, Guards: []core.Guard{
+			{Name: "local-storage-accepted", Match: func(s core.Site) bool { return strings.HasSuffix(s.Name, "put.ObjectStorage).Put") }, Comps: []core.Comp{{Result: -1, Kind: core.ErrNil}}},
+		}})
+	}
+	if vs := p.Func("(*" + putP + "Service).ValidateAndStoreObjectLocally"); vs == nil {
+		r.Fatalf("C25.R8: ValidateAndStoreObjectLocally not found")
+	} else {
+		core.CheckSuccessFn(p, r8, vs, core.SuccessRule{ResultIdx: -1, MinReturns: 1, Guards: []core.Guard{core.G("stored-locally", core.ErrNil, putP+"putObjectLocally")}})
+	}
+	r.Explain += " (R8) the local leaf: putObjectLocally returns nil only after the local storage's Put returned nil, and ValidateAndStoreObjectLocally (the receiving side of replication) only through it, so a node that refused the object (already removed, locked, no space) is never counted as a holder."
 }
 
 func isNilConstV(v ssa.Value) bool {
